@@ -67,4 +67,24 @@ def iter {C R : Type} (p : Pass C R) : Nat → Net C × SimState × List R → N
 def StopsAt {C R : Type} (p : Pass C R) (T : Int) (k : Nat) (x : Net C × SimState × List R) : Prop :=
   1 ≤ k ∧ p.simTime (iter p k x).1.core > T ∧ ∀ j, 1 ≤ j → j < k → ¬ p.simTime (iter p j x).1.core > T
 
+/-! ### the effective time steps (`WNTRSimulator._setup_sim_options`) -/
+
+/-- the adjustment of the steps for a numeric report timestep, statement by statement (regenerated into
+Gen/RestartFields.lean) -/
+inductive SetupTok where
+  | ifReportLtHyd_setHydToReport            -- if report < hyd: hyd = report
+  | elifReportNotMultiple_floorReport       -- elif report % hyd != 0: report = report - report % hyd
+  deriving Repr, DecidableEq
+
+/-- interpretation of the `if / elif` chain on (hydraulic step, report step); note: NO clock argument — the effective
+steps are a function of the options alone -/
+def runSetup : List SetupTok → Int × Int → Int × Int
+  | [], p => p
+  | .ifReportLtHyd_setHydToReport :: rest, (hyd, rep) => if rep < hyd then (rep, rep) else runSetup rest (hyd, rep)
+  | .elifReportNotMultiple_floorReport :: rest, (hyd, rep) => if rep % hyd ≠ 0 then (hyd, rep - rep % hyd) else runSetup rest (hyd, rep)
+
+/-- hand-written: the steps the simulator really uses (`schedgen.eff_steps`) -/
+def effSteps (hyd rep : Int) : Int × Int :=
+  if rep < hyd then (rep, rep) else if rep % hyd ≠ 0 then (hyd, rep - rep % hyd) else (hyd, rep)
+
 end Wntr.Restart
